@@ -290,3 +290,501 @@ Proof.
          (CStruct [CVar 5 [CPrim (VInt 0); CPrim (VInt 0)]]), 8.
   split; [vm_compute; lia|]. split; [reflexivity|]. split; [vm_compute; discriminate | vm_compute; reflexivity].
 Qed.
+
+(* =====================================================  serialization: bounds  ===================================================== *)
+(* all bytes written end at or before bit E; object array indices inside the storage *)
+Definition bw_le (E : nat) (a : acc) : bool :=
+  match a with BR lo hi | BW lo hi => hi <=? bytes_hi E | OA s n => n <=? s | _ => true end.
+
+Lemma bw_le_mono E1 E2 a : E1 <= E2 -> bw_le E1 a = true -> bw_le E2 a = true.
+Proof.
+  intros H. destruct a; cbn [bw_le]; auto; intros H1; apply Nat.leb_le in H1; apply Nat.leb_le; unfold bytes_hi in *; lia.
+Qed.
+
+Lemma bw_le_all_mono E1 E2 l : E1 <= E2 -> forallb (bw_le E1) l = true -> forallb (bw_le E2) l = true.
+Proof.
+  intros H. induction l as [|a r IH]; cbn [forallb]; [auto|]. intros H1. apply andb_prop in H1. destruct H1 as [Ha Hr].
+  rewrite (bw_le_mono _ _ _ H Ha), (IH Hr). reflexivity.
+Qed.
+
+(* a step that starts somewhere below E: writes end by E, never reports TOO_SMALL, finishes by E on a multiple of al *)
+Definition sstep (al E : nat) (m : M nat) : Prop :=
+  log_all (bw_le E) m /\ fst m <> Err ETooSmall /\ forall o', fst m = Ok o' -> o' <= E /\ o' mod al = 0.
+
+Lemma sstep_weaken al E1 E2 m : E1 <= E2 -> sstep al E1 m -> sstep al E2 m.
+Proof.
+  intros H (H1 & H2 & H3). split; [|split]; [eapply bw_le_all_mono; eassumption | exact H2|].
+  intros o' Ho. destruct (H3 o' Ho). split; [lia | assumption].
+Qed.
+
+Lemma sstep_al1 al E m : sstep al E m -> sstep 1 E m.
+Proof. intros (H1 & H2 & H3). split; [|split]; auto. intros o' Ho. destruct (H3 o' Ho). split; [assumption | apply Nat.mod_1_r]. Qed.
+
+Lemma sstep_bind al al' E1 E (m : M nat) f :
+  E1 <= E -> sstep al E1 m -> (forall o, fst m = Ok o -> o <= E1 -> o mod al = 0 -> sstep al' E (f o)) -> sstep al' E (bindM m f).
+Proof.
+  intros HE (H1 & H2 & H3) Hf. destruct m as [[o|e] l]; cbn [fst snd] in *.
+  - destruct (H3 o eq_refl) as [Ho Hm]. destruct (Hf o eq_refl Ho Hm) as (F1 & F2 & F3).
+    unfold bindM. split; [|split]; cbn [fst snd]; [|exact F2 | exact F3].
+    unfold log_all in *. cbn [snd] in *. rewrite forallb_app, (bw_le_all_mono _ _ _ HE H1). exact F1.
+  - unfold bindM. split; [|split]; cbn [fst snd]; [eapply bw_le_all_mono; eassumption | exact H2 | intros o' Ho; discriminate Ho].
+Qed.
+
+Lemma sstep_tell al E l (m : M nat) : forallb (bw_le E) l = true -> sstep al E m -> sstep al E (bindM (tell l) (fun _ => m)).
+Proof.
+  intros Hl (H1 & H2 & H3). unfold bindM, tell. split; [|split]; cbn [fst snd]; [|exact H2 | exact H3].
+  unfold log_all in *. cbn [snd]. rewrite forallb_app, Hl. exact H1.
+Qed.
+
+Lemma sstep_ret al E o : o <= E -> o mod al = 0 -> sstep al E (ret o).
+Proof. intros H1 H2. split; [reflexivity|]. split; [discriminate|]. intros o' Ho. injection Ho as <-. auto. Qed.
+
+Lemma sstep_fail al E e : e <> ETooSmall -> sstep al E (@fail nat e).
+Proof. intros H. split; [reflexivity|]. split; [cbn; congruence|]. intros o' Ho. discriminate Ho. Qed.
+
+Lemma sstep_raw off w : sstep 1 (off + w) (w_raw off w).
+Proof.
+  unfold w_raw. split; [|split]; cbn [fst snd]; [|discriminate|].
+  - unfold log_all. cbn [snd forallb bw_le]. rewrite Nat.leb_refl. reflexivity.
+  - intros o' Ho. injection Ho as <-. split; [lia | apply Nat.mod_1_r].
+Qed.
+
+Lemma sstep_checked lim off w : off + w <= lim -> sstep 1 (off + w) (w_checked lim off w).
+Proof.
+  intros H. unfold w_checked. replace (lim <? off + w) with false by (symmetry; apply Nat.ltb_ge; exact H). apply sstep_raw.
+Qed.
+
+Lemma raw_exact off w o : fst (w_raw off w) = Ok o -> o = off + w.
+Proof. cbn. intros H. injection H as <-. reflexivity. Qed.
+Lemma checked_exact lim off w o : fst (w_checked lim off w) = Ok o -> o = off + w.
+Proof. unfold w_checked. destruct (lim <? off + w); [discriminate | apply raw_exact]. Qed.
+
+Lemma ws_prim_sound c p lim off : off + prim_bits p <= lim -> sstep 1 (off + prim_bits p) (ws_prim c p lim off).
+Proof.
+  intros H. destruct p; cbn [ws_prim prim_bits] in *;
+    repeat match goal with |- context [if ?b then _ else _] => destruct b end; try apply sstep_raw; apply sstep_checked; exact H.
+Qed.
+
+Lemma ws_prim_exact c p lim off o : fst (ws_prim c p lim off) = Ok o -> o = off + prim_bits p.
+Proof.
+  destruct p; cbn [ws_prim prim_bits];
+    repeat match goal with |- context [if ?b then _ else _] => destruct b end; intros H;
+    first [apply raw_exact in H | apply checked_exact in H]; exact H.
+Qed.
+
+Lemma ws_pad_sound lim off a : a = 1 \/ a = 8 -> off + padn off a <= lim -> sstep a (off + padn off a) (ws_pad lim off a).
+Proof.
+  intros Ha H. unfold ws_pad. destruct (off mod a =? 0) eqn:E.
+  - apply Nat.eqb_eq in E. apply sstep_ret; [lia|]. unfold padn. destruct Ha; subst a; lia.
+  - apply Nat.eqb_neq in E. assert (Hp : padn off a = a - off mod a) by (unfold padn; destruct Ha; subst a; lia).
+    rewrite Hp in *. destruct (sstep_checked lim off (a - off mod a) H) as (H1 & H2 & H3).
+    split; [exact H1|]. split; [exact H2|]. intros o' Ho. destruct (H3 o' Ho) as [Hle _]. split; [exact Hle|].
+    apply checked_exact in Ho. subst o'. destruct Ha; subst a; lia.
+Qed.
+
+Lemma padn_shift S x a : S mod 8 = 0 -> a = 1 \/ a = 8 -> S + x + padn (S + x) a = S + (x + padn x a).
+Proof. intros HS [->| ->]; unfold padn; lia. Qed.
+
+Lemma fs_ge B fs : forall x, x <= fields_sum B fs x.
+Proof.
+  induction fs as [|f r IH]; intros x; cbn [fields_sum]; [lia|].
+  etransitivity; [|apply IH]. lia.
+Qed.
+
+Lemma bulk_prim c e w : bulk c e = Some w -> w = fmax e /\ align e = 1.
+Proof.
+  unfold bulk. destruct e as [p| | |]; try discriminate. destruct p; try discriminate;
+    try (destruct (zero_cost c _); [|discriminate]); intros H; injection H as <-; split; reflexivity.
+Qed.
+
+Section SerBounds.
+  Variable c : cfg.
+  Hypothesis Hc : cap_ok c.
+
+  Definition Pb (t : ty) : Prop := wf_ty t = true -> forall o lim off,
+    off mod align t = 0 -> off + bmax t <= lim -> sstep (align t) (off + bmax t) (ws_body c t o lim off).
+  Definition Pf (t : ty) : Prop := wf_ty t = true -> forall o lim off,
+    off mod align t = 0 -> off + fmax t <= lim -> sstep (align t) (off + fmax t) (ws_field c (ws_body c) t o lim off).
+
+  Lemma fs_mod8 B fs : forall x, fields_sum B fs x mod 8 = 0.
+  Proof. induction fs as [|f r IH]; intros x; cbn [fields_sum]; [apply (proj1 (pad8_spec x)) | apply IH]. Qed.
+
+  Lemma bmax_comp_mod8 u fs ext : bmax (TComp u fs ext) mod 8 = 0.
+  Proof. destruct u; cbn [bmax]; [apply (proj1 (pad8_spec _)) | apply fs_mod8]. Qed.
+
+  Lemma field_of_body t : Pb t -> Pf t.
+  Proof.
+    intros Hb Hwf o lim off Hal Hlim. unfold ws_field, fmax, as_field_max in *.
+    destruct t as [p|e n|e cp|u fs [x|]]; try (apply Hb; assumption).
+    - (* delimited *)
+      destruct (wf_extent _ _ _ Hwf) as [Hx Hx8]. assert (Hal8 : off mod 8 = 0) by exact Hal. set (t := TComp u fs (Some x)) in *.
+      pose proof (bmax_comp_mod8 u fs (Some x)) as Hm8. fold t in Hm8.
+      assert (Hsz : 8 * bytes_hi (bmax t) = bmax t) by (unfold bytes_hi; lia).
+      cbn [align] in Hal. unfold header_bits in *.
+      destruct (bmin t =? bmax t).
+      + eapply sstep_bind with (E1 := off + 32); [lia | apply (ws_prim_sound c (PU 32 false)); cbn [prim_bits]; lia|].
+        intros o1 Ho1 _ _. apply ws_prim_exact in Ho1. cbn [prim_bits] in Ho1. subst o1.
+        apply sstep_tell; [reflexivity|]. rewrite Hsz.
+        eapply sstep_weaken; [|apply Hb; [exact Hwf | unfold t; cbn [align]; lia | lia]]. lia.
+      + apply sstep_tell; [reflexivity|]. rewrite Hsz.
+        eapply sstep_bind with (E1 := off + 32 + bmax t) (al := 8); [lia | apply Hb; [exact Hwf | unfold t; cbn [align]; lia | lia]|].
+        intros o2 _ Ho2 Hm2.
+        eapply sstep_bind with (E1 := off + 32) (al := 1); [lia | destruct (little c); [apply sstep_raw | apply sstep_checked; lia]|].
+        intros _ _ _ _. apply sstep_ret; [lia | exact Hm2].
+    - (* sealed *)
+      pose proof (bmax_comp_mod8 u fs None) as Hm8. set (t := TComp u fs None) in *.
+      assert (Hsz : 8 * bytes_hi (bmax t) = bmax t) by (unfold bytes_hi; lia).
+      apply sstep_tell; [reflexivity|]. rewrite Hsz. apply Hb; [exact Hwf | exact Hal | lia].
+  Qed.
+
+  Lemma ws_list_sound e lim : Pf e -> wf_ty e = true -> forall n l off,
+    off mod align e = 0 -> off + n * fmax e <= lim ->
+    sstep (align e) (off + n * fmax e) (ws_list (fun x off' => ws_field c (ws_body c) e x lim off') n l off).
+  Proof.
+    intros He Hwf. induction n as [|n IH]; intros l off Hal Hlim; cbn [ws_list].
+    - apply sstep_ret; [lia | exact Hal].
+    - eapply sstep_bind with (E1 := off + fmax e); [lia | apply He; [exact Hwf | exact Hal | lia]|].
+      intros o _ Ho Hm. eapply sstep_weaken; [|apply IH; [exact Hm | lia]]. lia.
+  Qed.
+
+  Lemma ws_fields_sound fs : Forall Pf fs -> forallb wf_ty fs = true -> forall S os lim off omax,
+    S mod 8 = 0 -> off <= S + omax -> S + fields_sum fmax fs omax <= lim ->
+    sstep 8 (S + fields_sum fmax fs omax) (ws_fields (ws_field c (ws_body c)) fs os lim off).
+  Proof.
+    induction 1 as [|f fs Hf _ IH]; intros Hwf S os lim off omax HS Hoff Hlim; cbn [ws_fields fields_sum] in *.
+    - pose proof (rup8_mono off (S + omax) Hoff). assert (pad8 (S + omax) = pad8 omax) by (unfold pad8; lia).
+      eapply sstep_weaken; [|apply ws_pad_sound; [right; reflexivity | rewrite padn_8; lia]]. rewrite padn_8. lia.
+    - apply andb_prop in Hwf. destruct Hwf as [Hwf1 Hwf2].
+      pose proof (rupn_mono off (S + omax) f Hoff) as Hr. pose proof (align_cases f) as Ha.
+      rewrite (padn_shift S omax (align f) HS Ha) in Hr.
+      pose proof (fs_ge fmax fs (omax + padn omax (align f) + fmax f)) as Hge.
+      eapply sstep_bind with (E1 := off + padn off (align f)); [lia | apply ws_pad_sound; [exact Ha | lia]|].
+      intros o1 _ Ho1 Hm1.
+      eapply sstep_bind with (E1 := o1 + fmax f); [lia | apply Hf; [exact Hwf1 | exact Hm1 | lia]|].
+      intros o2 _ Ho2 _. apply IH; [exact Hwf2 | exact HS | lia | exact Hlim].
+  Qed.
+
+  Lemma ws_sel_sound fs : Forall Pf fs -> forallb wf_ty fs = true -> forall k o lim off,
+    off mod 8 = 0 -> off + fields_max fmax fs <= lim ->
+    sstep 1 (off + fields_max fmax fs) (ws_sel (ws_field c (ws_body c)) fs k o lim off).
+  Proof.
+    induction 1 as [|f fs Hf _ IH]; intros Hwf k o lim off Hal Hlim; cbn [ws_sel fields_max] in *.
+    - destruct k; apply sstep_fail; discriminate.
+    - apply andb_prop in Hwf. destruct Hwf as [Hwf1 Hwf2]. destruct k as [|k].
+      + apply sstep_al1 with (al := align f). eapply sstep_weaken; [|apply Hf; [exact Hwf1 | destruct (align_cases f) as [-> | ->]; lia | lia]]. lia.
+      + eapply sstep_weaken; [|apply IH; [exact Hwf2 | exact Hal | lia]]. lia.
+  Qed.
+
+  Theorem ws_body_sound : forall t, Pb t.
+  Proof.
+    induction t as [p|e n IH|e cp IH|u fs ext IH] using ty_nested_ind; intros Hwf o lim off Hal Hlim.
+    - cbn [ws_body bmax align] in *. eapply sstep_al1. apply ws_prim_sound. exact Hlim.
+    - cbn [ws_body bmax align wf_ty] in *. fold (fmax e) in *.
+      apply sstep_tell; [cbn [forallb bw_le]; rewrite Nat.leb_refl; reflexivity|].
+      destruct (bulk c e) as [w|] eqn:Eb.
+      + destruct (bulk_prim _ _ _ Eb) as [-> Ha1]. rewrite Ha1. apply sstep_raw.
+      + apply ws_list_sound; [apply field_of_body, IH | exact Hwf | exact Hal | exact Hlim].
+    - cbn [ws_body bmax align wf_ty] in *. fold (fmax e) in *. apply andb_prop in Hwf. destruct Hwf as [Hwf _].
+      destruct (cp <? o_count o) eqn:En; [apply sstep_fail; discriminate|]. apply Nat.ltb_ge in En.
+      apply sstep_tell; [cbn [forallb bw_le]; rewrite Bool.andb_true_r; apply Nat.leb_le; specialize (Hc e cp); lia|].
+      pose proof (len_width_mod8 cp) as Hp8. unfold prefix_bits in *.
+      assert (Hmul : o_count o * fmax e <= cp * fmax e) by (apply Nat.mul_le_mono_r; exact En).
+      eapply sstep_bind with (E1 := off + len_width cp); [lia | apply (ws_prim_sound c (PU (len_width cp) false)); cbn [prim_bits]; lia|].
+      intros o1 Ho1 _ _. apply ws_prim_exact in Ho1. cbn [prim_bits] in Ho1. subst o1.
+      assert (Hal1 : (off + len_width cp) mod align e = 0) by (destruct (align_cases e) as [Ha|Ha]; rewrite Ha in *; lia).
+      destruct (bulk c e) as [w|] eqn:Eb.
+      + destruct (bulk_prim _ _ _ Eb) as [-> Ha1]. rewrite Ha1. eapply sstep_weaken; [|apply sstep_raw]. lia.
+      + eapply sstep_weaken; [|apply ws_list_sound; [apply field_of_body, IH | exact Hwf | exact Hal1 | lia]]. lia.
+    - assert (Hwfs : forallb wf_ty fs = true).
+      { cbn [wf_ty] in Hwf. apply andb_prop in Hwf. destruct Hwf as [Hwf _]. apply andb_prop in Hwf. destruct Hwf as [Hwf _]. exact Hwf. }
+      assert (HF : Forall Pf fs) by (eapply Forall_impl; [|exact IH]; intros f Hf; apply field_of_body; exact Hf).
+      cbn [align] in *. destruct u; cbn [ws_body bmax] in *.
+      + pose proof (tag_bits_mod8 (length fs)) as Ht8. set (tw := tag_bits (length fs)) in *.
+        set (mx := fields_max (as_field_max bmax) fs) in *.
+        pose proof (pad8_spec (tw + mx)) as [Hp1 Hp2].
+        eapply sstep_bind with (E1 := off + tw); [lia | apply (ws_prim_sound c (PU tw false)); cbn [prim_bits]; lia|].
+        intros o1 Ho1 _ _. apply ws_prim_exact in Ho1. cbn [prim_bits] in Ho1. subst o1.
+        eapply sstep_bind with (E1 := off + tw + mx) (al := 1); [lia | apply ws_sel_sound; [exact HF | exact Hwfs | lia | change (fields_max fmax fs) with mx; lia]|].
+        intros o2 _ Ho2 _. pose proof (rup8_mono o2 (off + (tw + mx))). assert (pad8 (off + (tw + mx)) = pad8 (tw + mx)) by (unfold pad8; lia).
+        eapply sstep_weaken; [|apply ws_pad_sound; [right; reflexivity | rewrite padn_8; lia]]. rewrite padn_8. lia.
+      + apply (ws_fields_sound fs HF Hwfs off (o_elems o) lim off 0); [exact Hal | lia | exact Hlim].
+  Qed.
+
+  (* every byte written lies inside the supplied buffer, every object array index below the array's storage size; whatever the
+     object holds; and a buffer that passes the up-front test is never reported too small later *)
+  Theorem ser_in_bounds t o capB : wf_ty t = true -> align t = 8 -> bmax t <= 8 * capB ->
+    log_all (acc_ok capB) (walk_ser_safe c t o capB) /\ fst (walk_ser_safe c t o capB) <> Err ETooSmall.
+  Proof.
+    intros Hwf Ha Hcap. unfold walk_ser_safe.
+    replace (8 * capB <? bmax t) with false by (symmetry; apply Nat.ltb_ge; exact Hcap). rewrite Bool.andb_false_r.
+    destruct (ws_body_sound t Hwf o (8 * capB) 0) as (H1 & H2 & H3); [rewrite Ha; reflexivity | lia|].
+    destruct (ws_body c t o (8 * capB) 0) as [[off|e] l]; unfold bindM, ret; cbn [fst snd] in *.
+    - split; [|discriminate]. unfold log_all in *. cbn [snd] in *. rewrite app_nil_r.
+      clear - H1 Hcap. induction l as [|a r IH]; [reflexivity|]. cbn [forallb] in *. apply andb_prop in H1. destruct H1 as [Ha Hr].
+      rewrite (IH Hr), Bool.andb_true_r. destruct a; cbn [bw_le acc_ok] in *; auto;
+        apply Bool.orb_true_iff; left; apply Nat.leb_le in Ha; apply Nat.leb_le; unfold bytes_hi in Ha; lia.
+    - split; [|exact H2]. unfold log_all in *. cbn [snd] in *.
+      clear - H1 Hcap. induction l as [|a r IH]; [reflexivity|]. cbn [forallb] in *. apply andb_prop in H1. destruct H1 as [Ha Hr].
+      rewrite (IH Hr), Bool.andb_true_r. destruct a; cbn [bw_le acc_ok] in *; auto;
+        apply Bool.orb_true_iff; left; apply Nat.leb_le in Ha; apply Nat.leb_le; unfold bytes_hi in Ha; lia.
+  Qed.
+End SerBounds.
+
+(* =====================================================  deserialization: the prior contents do not matter  ===================================================== *)
+Lemma fst_bindM {A B} (m : M A) (f : A -> M B) : fst (bindM m f) = bind (fst m) (fun a => fst (f a)).
+Proof. destruct m as [[a|e] l]; reflexivity. Qed.
+
+(* the instrumented walker's result, seen through `obs`, against the prior-free walker of Codec/Walker.v *)
+Definition R {A B} (f : A -> B) (m : res (A * nat)) (w : res (B * nat)) : Prop :=
+  match m with Ok (a, o) => w = Ok (f a, o) | Err e => w = Err e end.
+
+Section ObsEq.
+  Variable c : cfg.
+  Notation WB := (Walker.wd_body ref_prims).
+  Notation WF := (Walker.wd_field ref_prims WB).
+
+  Definition Pob (t : ty) : Prop := forall p buf cap off, R (obs t) (fst (wd_body c t p buf cap off)) (WB t buf cap off).
+  Definition Pof (t : ty) : Prop := forall p buf cap off, R (obs t) (fst (wd_field (wd_body c) t p buf cap off)) (WF t buf cap off).
+
+  Lemma obs_field_of_body t : Pob t -> Pof t.
+  Proof.
+    intros Hb p buf cap off. unfold wd_field, Walker.wd_field.
+    destruct t as [q|e n|e cp|u fs [x|]]; try apply Hb.
+    - rewrite fst_bindM. unfold rd_uint at 1. cbn [fst bind].
+      destruct (N.of_nat _ <? _)%N; [reflexivity|].
+      rewrite fst_bindM. cbn [tell fst bind]. rewrite fst_bindM.
+      specialize (Hb p buf (Nat.min cap (off + header_bits + 8 * N.to_nat (N_of_bits (get_bits ref_prims buf cap off header_bits))))
+                     (off + header_bits)).
+      destruct (fst (wd_body c _ p buf _ _)) as [[v o]|er]; cbn [R bind] in *; rewrite Hb; reflexivity.
+    - rewrite fst_bindM. cbn [tell fst bind]. rewrite fst_bindM.
+      specialize (Hb p buf cap off).
+      destruct (fst (wd_body c _ p buf _ _)) as [[v o]|er]; cbn [R bind] in *; rewrite Hb; reflexivity.
+  Qed.
+
+  Lemma wd_list_obs e : Pof e -> forall n ps buf cap off,
+    R (fun vs => map (obs e) (firstn n vs)) (fst (wd_list (wd_field (wd_body c) e) n ps buf cap off))
+      (Walker.wd_list (WF e) n buf cap off).
+  Proof.
+    intros He. induction n as [|n IH]; intros ps buf cap off; cbn [wd_list Walker.wd_list]; [reflexivity|].
+    rewrite fst_bindM. specialize (He (hd dflt ps) buf cap off).
+    destruct (fst (wd_field (wd_body c) e (hd dflt ps) buf cap off)) as [[v o]|er]; cbn [R bind] in *; rewrite He; [|reflexivity].
+    cbn [bind]. rewrite fst_bindM. specialize (IH (tl ps) buf cap o).
+    destruct (fst (wd_list _ n (tl ps) buf cap o)) as [[vs o']|er]; cbn [R bind] in *; rewrite IH; reflexivity.
+  Qed.
+
+  Lemma arm_fst (e : ty) n ps buf cap off o1 :
+    fst (match bulk c e with
+         | Some w => bindM (tell (rd_log cap o1 (n * w))) (fun _ => silence (wd_list (wd_field (wd_body c) e) n ps buf cap off))
+         | None => wd_list (wd_field (wd_body c) e) n ps buf cap off
+         end) = fst (wd_list (wd_field (wd_body c) e) n ps buf cap off).
+  Proof. destruct (bulk c e); [|reflexivity]. rewrite fst_bindM. reflexivity. Qed.
+
+  Lemma wd_fields_obs fs : Forall Pof fs -> forall ps buf cap off,
+    R (obs_fields obs fs) (fst (wd_fields (wd_field (wd_body c)) fs ps buf cap off)) (Walker.wd_fields WF fs buf cap off).
+  Proof.
+    induction 1 as [|f fs Hf _ IH]; intros ps buf cap off; cbn [wd_fields Walker.wd_fields]; [reflexivity|].
+    rewrite fst_bindM. specialize (Hf (hd dflt ps) buf cap (off + padn off (align f))).
+    destruct (fst (wd_field (wd_body c) f (hd dflt ps) buf cap _)) as [[v o]|er]; cbn [R bind] in *; rewrite Hf; [|reflexivity].
+    cbn [bind]. rewrite fst_bindM. specialize (IH (tl ps) buf cap o).
+    destruct (fst (wd_fields _ fs (tl ps) buf cap o)) as [[vs o']|er]; cbn [R bind] in *; rewrite IH; reflexivity.
+  Qed.
+
+  Lemma wd_sel_obs fs : Forall Pof fs -> forall k p buf cap off,
+    R (obs_sel obs fs k) (fst (wd_sel (wd_field (wd_body c)) fs k p buf cap off)) (Walker.wd_sel WF fs k buf cap off).
+  Proof.
+    induction 1 as [|f fs Hf _ IH]; intros k p buf cap off; cbn [wd_sel Walker.wd_sel]; [destruct k; reflexivity|].
+    destruct k as [|k]; [|apply IH]. specialize (Hf p buf cap off).
+    destruct (fst (wd_field (wd_body c) f p buf cap off)) as [[v o]|er]; cbn [R obs_sel] in *; exact Hf.
+  Qed.
+
+  Theorem wd_obs_eq_walker : forall t, Pob t.
+  Proof.
+    induction t as [q|e n IH|e cp IH|u fs ext IH] using ty_nested_ind; intros p buf cap off.
+    - reflexivity.
+    - cbn [wd_body Walker.wd_body]. rewrite fst_bindM. cbn [tell fst bind]. rewrite fst_bindM, arm_fst.
+      pose proof (wd_list_obs e (obs_field_of_body e IH) n (o_elems p) buf cap off) as H.
+      destruct (fst (wd_list _ n (o_elems p) buf cap off)) as [[vs o]|er]; cbn [R bind] in *; rewrite H; reflexivity.
+    - cbn [wd_body Walker.wd_body]. rewrite fst_bindM. unfold rd_uint at 1. cbn [fst bind].
+      destruct (N.of_nat cp <? _)%N; [reflexivity|].
+      rewrite fst_bindM. cbn [tell fst bind]. rewrite fst_bindM, arm_fst.
+      set (n := N.to_nat _).
+      pose proof (wd_list_obs e (obs_field_of_body e IH) n (o_elems p) buf cap (off + prefix_bits cp)) as H.
+      destruct (fst (wd_list _ n (o_elems p) buf cap _)) as [[vs o]|er]; cbn [R bind] in *; rewrite H; reflexivity.
+    - assert (HF : Forall Pof fs) by (eapply Forall_impl; [|exact IH]; intros f Hf; apply obs_field_of_body; exact Hf).
+      destruct u; cbn [wd_body Walker.wd_body].
+      + rewrite fst_bindM. unfold rd_uint at 1. cbn [fst bind].
+        destruct (N.of_nat (length fs) <=? _)%N; [reflexivity|].
+        rewrite fst_bindM. set (k := N.to_nat _).
+        pose proof (wd_sel_obs fs HF k (o_cell p) buf cap (off + tag_bits (length fs))) as H.
+        destruct (fst (wd_sel _ fs k (o_cell p) buf cap _)) as [[v o]|er]; cbn [R bind] in *; rewrite H; reflexivity.
+      + rewrite fst_bindM.
+        pose proof (wd_fields_obs fs HF (o_elems p) buf cap off) as H.
+        destruct (fst (wd_fields _ fs (o_elems p) buf cap off)) as [[vs o]|er]; cbn [R bind] in *; rewrite H; reflexivity.
+  Qed.
+
+  (* the decoded observable, the consumed size and the error are those of Codec/Walker.v's walk_des - a function of the bytes only *)
+  Theorem des_obs_eq_walker t prior buf :
+    obs_res t (fst (walk_des_safe c t prior buf)) = walk_des ref_prims t buf.
+  Proof.
+    unfold walk_des_safe, walk_des. rewrite fst_bindM. pose proof (wd_obs_eq_walker t prior buf (length buf) 0) as H.
+    destruct (fst (wd_body c t prior buf (length buf) 0)) as [[v o]|er]; cbn [R bind] in *; rewrite H; reflexivity.
+  Qed.
+
+  Theorem des_prior_indep t prior1 prior2 buf :
+    obs_res t (fst (walk_des_safe c t prior1 buf)) = obs_res t (fst (walk_des_safe c t prior2 buf)).
+  Proof. rewrite !des_obs_eq_walker. reflexivity. Qed.
+End ObsEq.
+
+(* =====================================================  pointer formation  ===================================================== *)
+(* `&buffer[offset_bits / 8U]` of _deserialize_composite once implicit zero extension has moved the cursor past the end:
+   struct { uint64 big; In inner } decoded from 2 bytes forms &buffer[8] (F-C-PTR-PAST-END) *)
+Theorem des_ptr_in_bounds_refuted :
+  exists t prior buf capB, wf_ty t = true /\ length buf = 8 * capB /\
+    forallb (ptr_ok capB) (snd (walk_des_safe (std_cfg false) t prior buf)) = false.
+Proof.
+  exists (TComp false [TPrim (PU 64 true); TComp false [TPrim (PU 8 true); TPrim (PU 8 true)] None] None), dflt,
+         (bits_of_bytes [1; 2]%N), 2.
+  split; [reflexivity|]. split; [reflexivity | vm_compute; reflexivity].
+Qed.
+
+(* =====================================================  totality: only documented errors  ===================================================== *)
+(* the walkers are total functions (structural recursion on the type and on the element count, no fuel): they return Ok or Err;
+   the error is always one of the documented ones *)
+Definition errs_in {A} (S : derr -> bool) (m : M A) : Prop := forall e, fst m = Err e -> S e = true.
+
+Lemma errs_bind {A B} S (m : M A) (f : A -> M B) : errs_in S m -> (forall a, errs_in S (f a)) -> errs_in S (bindM m f).
+Proof.
+  intros H1 H2 e He. apply bind_err in He. destruct He as [He|(a & _ & He)]; [apply H1; exact He | eapply H2; exact He].
+Qed.
+Lemma errs_ok {A} S (a : A) l : errs_in S (Ok a, l).
+Proof. intros e He. discriminate He. Qed.
+Lemma errs_fail {A} (S : derr -> bool) e : S e = true -> errs_in S (@fail A e).
+Proof. intros H e' He. cbn in He. injection He as <-. exact H. Qed.
+Lemma errs_silence {A} S (m : M A) : errs_in S m -> errs_in S (silence m).
+Proof. intros H e He. apply H. exact He. Qed.
+
+Section Errs.
+  Variable c : cfg.
+  Let Sd := des_err_documented.
+  Let Ss := ser_err_documented.
+
+  Lemma wd_list_errs De : (forall p buf cap off, errs_in Sd (De p buf cap off)) -> forall n ps buf cap off, errs_in Sd (wd_list De n ps buf cap off).
+  Proof.
+    intros H. induction n as [|n IH]; intros ps buf cap off; cbn [wd_list]; [apply errs_ok|].
+    apply errs_bind; [apply H|]. intros [v o]. apply errs_bind; [apply IH|]. intros [vs o']. apply errs_ok.
+  Qed.
+  Lemma wd_fields_errs D fs : Forall (fun f => forall p buf cap off, errs_in Sd (D f p buf cap off)) fs ->
+    forall ps buf cap off, errs_in Sd (wd_fields D fs ps buf cap off).
+  Proof.
+    induction 1 as [|f fs Hf _ IH]; intros ps buf cap off; cbn [wd_fields]; [apply errs_ok|].
+    apply errs_bind; [apply Hf|]. intros [v o]. apply errs_bind; [apply IH|]. intros [vs o']. apply errs_ok.
+  Qed.
+  Lemma wd_sel_errs D fs : Forall (fun f => forall p buf cap off, errs_in Sd (D f p buf cap off)) fs ->
+    forall k p buf cap off, errs_in Sd (wd_sel D fs k p buf cap off).
+  Proof.
+    induction 1 as [|f fs Hf _ IH]; intros k p buf cap off; cbn [wd_sel]; [destruct k; apply errs_fail; reflexivity|].
+    destruct k; [apply Hf | apply IH].
+  Qed.
+  Lemma wd_field_errs D t : (forall p buf cap off, errs_in Sd (D t p buf cap off)) -> forall p buf cap off, errs_in Sd (wd_field D t p buf cap off).
+  Proof.
+    intros H p buf cap off. unfold wd_field. destruct t as [q|e n|e cp|u fs [x|]]; try apply H.
+    - apply errs_bind; [apply errs_ok|]. intros hN. destruct (N.of_nat _ <? hN)%N; [apply errs_fail; reflexivity|].
+      apply errs_bind; [apply errs_ok|]. intros _. apply errs_bind; [apply H|]. intros [v o]. apply errs_ok.
+    - apply errs_bind; [apply errs_ok|]. intros _. apply errs_bind; [apply H|]. intros [v o]. apply errs_ok.
+  Qed.
+  Lemma arm_errs (D : cobj -> list bool -> nat -> nat -> rres cobj) e n ps buf cap off o1 :
+    (forall p buf cap off, errs_in Sd (D p buf cap off)) ->
+    errs_in Sd (match bulk c e with
+                | Some w => bindM (tell (rd_log cap o1 (n * w))) (fun _ => silence (wd_list D n ps buf cap off))
+                | None => wd_list D n ps buf cap off
+                end).
+  Proof.
+    intros H. destruct (bulk c e); [|apply wd_list_errs; exact H].
+    apply errs_bind; [apply errs_ok|]. intros _. apply errs_silence, wd_list_errs. exact H.
+  Qed.
+
+  Theorem wd_body_errs : forall t p buf cap off, errs_in Sd (wd_body c t p buf cap off).
+  Proof.
+    induction t as [q|e n IH|e cp IH|u fs ext IH] using ty_nested_ind; intros p buf cap off; cbn [wd_body].
+    - apply errs_ok.
+    - apply errs_bind; [apply errs_ok|]. intros _. apply errs_bind; [apply arm_errs, wd_field_errs, IH|]. intros [vs o]. apply errs_ok.
+    - apply errs_bind; [apply errs_ok|]. intros nN. destruct (N.of_nat cp <? nN)%N; [apply errs_fail; reflexivity|].
+      apply errs_bind; [apply errs_ok|]. intros _. apply errs_bind; [apply arm_errs, wd_field_errs, IH|]. intros [vs o]. apply errs_ok.
+    - assert (HF : Forall (fun f => forall p buf cap off, errs_in Sd (wd_field (wd_body c) f p buf cap off)) fs)
+        by (eapply Forall_impl; [|exact IH]; intros f Hf; apply wd_field_errs; exact Hf).
+      destruct u.
+      + apply errs_bind; [apply errs_ok|]. intros kN. destruct (N.of_nat (length fs) <=? kN)%N; [apply errs_fail; reflexivity|].
+        apply errs_bind; [apply wd_sel_errs; exact HF|]. intros [v o]. apply errs_ok.
+      + apply errs_bind; [apply wd_fields_errs; exact HF|]. intros [vs o]. apply errs_ok.
+  Qed.
+
+  (* deserialization returns Ok or one of BAD_ARRAY_LENGTH / BAD_UNION_TAG / BAD_DELIMITER_HEADER *)
+  Theorem des_total t prior buf :
+    (exists v k, fst (walk_des_safe c t prior buf) = Ok (v, k)) \/
+    (exists e, fst (walk_des_safe c t prior buf) = Err e /\ des_err_documented e = true).
+  Proof.
+    assert (H : errs_in Sd (walk_des_safe c t prior buf)).
+    { unfold walk_des_safe. apply errs_bind; [apply wd_body_errs|]. intros [v o]. apply errs_ok. }
+    destruct (fst (walk_des_safe c t prior buf)) as [[v k]|e] eqn:E; [left; eauto | right; exists e; split; [reflexivity | apply H; exact E]].
+  Qed.
+
+  (* ---- serialization ---- *)
+  Lemma w_checked_errs lim off w : errs_in Ss (w_checked lim off w).
+  Proof. unfold w_checked. destruct (lim <? off + w); [apply errs_fail; reflexivity | apply errs_ok]. Qed.
+  Lemma ws_pad_errs lim off a : errs_in Ss (ws_pad lim off a).
+  Proof. unfold ws_pad. destruct (off mod a =? 0); [apply errs_ok | apply w_checked_errs]. Qed.
+  Lemma ws_prim_errs p lim off : errs_in Ss (ws_prim c p lim off).
+  Proof.
+    destruct p; cbn [ws_prim]; repeat match goal with |- context [if ?b then _ else _] => destruct b end;
+      first [apply errs_ok | apply w_checked_errs].
+  Qed.
+  Lemma ws_list_errs Se : (forall x off, errs_in Ss (Se x off)) -> forall n l off, errs_in Ss (ws_list Se n l off).
+  Proof. intros H. induction n as [|n IH]; intros l off; cbn [ws_list]; [apply errs_ok|]. apply errs_bind; [apply H|]. intros o. apply IH. Qed.
+  Lemma ws_fields_errs Sr fs : Forall (fun f => forall o lim off, errs_in Ss (Sr f o lim off)) fs ->
+    forall os lim off, errs_in Ss (ws_fields Sr fs os lim off).
+  Proof.
+    induction 1 as [|f fs Hf _ IH]; intros os lim off; cbn [ws_fields]; [apply ws_pad_errs|].
+    apply errs_bind; [apply ws_pad_errs|]. intros o. apply errs_bind; [apply Hf|]. intros o'. apply IH.
+  Qed.
+  Lemma ws_sel_errs Sr fs : Forall (fun f => forall o lim off, errs_in Ss (Sr f o lim off)) fs ->
+    forall k o lim off, errs_in Ss (ws_sel Sr fs k o lim off).
+  Proof.
+    induction 1 as [|f fs Hf _ IH]; intros k o lim off; cbn [ws_sel]; [destruct k; apply errs_fail; reflexivity|].
+    destruct k; [apply Hf | apply IH].
+  Qed.
+  Lemma ws_field_errs Sr t : (forall o lim off, errs_in Ss (Sr t o lim off)) -> forall o lim off, errs_in Ss (ws_field c Sr t o lim off).
+  Proof.
+    intros H o lim off. unfold ws_field. destruct t as [q|e n|e cp|u fs [x|]]; try apply H.
+    - destruct (bmin _ =? bmax _).
+      + apply errs_bind; [apply ws_prim_errs|]. intros o1. apply errs_bind; [apply errs_ok|]. intros _. apply H.
+      + apply errs_bind; [apply errs_ok|]. intros _. apply errs_bind; [apply H|]. intros o2.
+        apply errs_bind; [destruct (little c); [apply errs_ok | apply w_checked_errs]|]. intros _. apply errs_ok.
+  Qed.
+
+  Theorem ws_body_errs : forall t o lim off, errs_in Ss (ws_body c t o lim off).
+  Proof.
+    induction t as [q|e n IH|e cp IH|u fs ext IH] using ty_nested_ind; intros o lim off; cbn [ws_body].
+    - apply ws_prim_errs.
+    - apply errs_bind; [apply errs_ok|]. intros _. destruct (bulk c e); [apply errs_ok|].
+      apply ws_list_errs. intros x off'. apply ws_field_errs, IH.
+    - destruct (cp <? o_count o); [apply errs_fail; reflexivity|].
+      apply errs_bind; [apply errs_ok|]. intros _. apply errs_bind; [apply ws_prim_errs|]. intros o1.
+      destruct (bulk c e); [apply errs_ok|]. apply ws_list_errs. intros x off'. apply ws_field_errs, IH.
+    - assert (HF : Forall (fun f => forall o lim off, errs_in Ss (ws_field c (ws_body c) f o lim off)) fs)
+        by (eapply Forall_impl; [|exact IH]; intros f Hf; apply ws_field_errs; exact Hf).
+      destruct u.
+      + apply errs_bind; [apply ws_prim_errs|]. intros o1. apply errs_bind; [apply ws_sel_errs; exact HF|]. intros o2. apply ws_pad_errs.
+      + apply ws_fields_errs. exact HF.
+  Qed.
+
+  (* serialization returns Ok or one of BUFFER_TOO_SMALL / BAD_ARRAY_LENGTH / BAD_UNION_TAG *)
+  Theorem ser_total t o capB :
+    (exists n, fst (walk_ser_safe c t o capB) = Ok n) \/
+    (exists e, fst (walk_ser_safe c t o capB) = Err e /\ ser_err_documented e = true).
+  Proof.
+    assert (H : errs_in Ss (walk_ser_safe c t o capB)).
+    { unfold walk_ser_safe. destruct (up_front c && _); [apply errs_fail; reflexivity|].
+      apply errs_bind; [apply ws_body_errs|]. intros off. apply errs_ok. }
+    destruct (fst (walk_ser_safe c t o capB)) as [n|e] eqn:E; [left; eauto | right; exists e; split; [reflexivity | apply H; exact E]].
+  Qed.
+End Errs.
